@@ -12,7 +12,7 @@ RULE = ("Square systems of order 2-5 with modes 2-12 (<= 2000 unknowns) from thr
         "sum_k I x..x (tridiag(-1,2,-1)+sigma I) x..x I in its rank-2 TT form, diagonally dominant = I + E with "
         "||E||_F = 0.3 and ranks 1-3; right-hand side = Gaussian TT of ranks 1-4 (not built from a low-rank solution); "
         "eps log-uniform in [1e-10,1e-3]; preconditioner None/'c'/'r'; max_full 500 (direct local solve) or 0 (iterative); "
-        "local_solver 1 (GMRES; Krylov length x restarts (40,2) default, (15,6) or (10,10) so that restarted cycles really run) or 2 (BiCGSTAB); x0 None, a random TT, the zero tensor / a TT with one zero core, or the right-hand side itself; the seed of the library's internal randomness. "
+        "local_solver 1 (GMRES; Krylov length x restarts (40,2) default, (15,6) or (10,10) so that restarted cycles really run) or 2 (BiCGSTAB); right-hand side and operator scaled by 10^{0,+-3,+-6}; x0 None, a random TT, the zero tensor / a TT with one zero core, or the right-hand side itself; the seed of the library's internal randomness. "
         "Oracle: x is a TT tensor of shape b.N and ||A x - b|| <= 5 eps ||b|| with A x formed densely by the checker. "
         "Non-trivial: iterative local solver used, or preconditioner set, or x0 given.")
 BUDGET = {"quick": 1280, "thorough": 32000}
@@ -47,6 +47,9 @@ def strategy_case(draw):
         case["sigma"] = draw(st.sampled_from([0.0, 0.5]))
     else:
         case["RE"] = draw(gen.ranks(d, 3))
+    # the residual clause is relative: scaling the right-hand side or the operator by 10^k must not matter
+    case["scale_b"] = draw(st.sampled_from([0, 0, 0, 0, -6, -3, 3, 6]))
+    case["scale_A"] = draw(st.sampled_from([0, 0, 0, 0, -6, -3, 3, 6]))
     if draw(st.floats(0, 1)) < 0.3:
         case["x0_R"] = draw(gen.ranks(d, 4))
         # the zero tensor is the classical start vector of an iterative solver: the whole tensor, or one zero core
@@ -141,6 +144,14 @@ def execute(case):
     d = len(N)
     eps = case["eps"]
     Ac, bc = build_system(case)
+    if case.get("scale_b", 0):
+        kb = case["seed"] % d
+        bc[kb] = bc[kb] * (10.0 ** case["scale_b"])
+        ck.label("scaled_b")
+    if case.get("scale_A", 0):
+        ka = (case["seed"] // 3) % d
+        Ac[ka] = Ac[ka] * (10.0 ** case["scale_A"])
+        ck.label("scaled_A")
     A = T.TT(core.clone_cores(Ac))
     b = T.TT(core.clone_cores(bc))
     it = case["max_full"] == 0
